@@ -363,7 +363,10 @@ def gen_history(rng, nsurf=None, nedits=None, exotic=True, build_only=False, foc
                     v = rng.uniform(-1, 1) * (10 ** (-1 + 0 * j) if scaled else 1e-5 * 10 ** (-2 * j))
                     ops.append(['var', vk, k, scaled, v, j])
             else:
-                ops.append(['var', vk, ks, scaled, rng.uniform(-0.05, 0.05), rng.choice(['x', 'y'])])
+                # (an explicit ImageSurface records paraxial rays in its LOCAL frame, an ordinary surface in the global one:
+                #  a decentred ImageSurface is outside the model; not generated)
+                kd = ks if not (img_obj and ks == n - 1) else max(0, n - 2)
+                ops.append(['var', vk, kd, scaled, rng.uniform(-0.05, 0.05), rng.choice(['x', 'y'])])
         elif kind == 'pickup':
             a = rng.choice(['radius', 'radius', 'conic', 'thickness'])
             hi = n - 1 if a == 'thickness' else n
@@ -934,7 +937,7 @@ def check_history(hist, stop_at_first=True):
                 if pre_ua is not None and abs(pre_ua[-1]) > 1e-9 and not (abs(y) <= 1e-9 * (1 + scale)):
                     V('image-solve-focus', ya_last=y, same_medium=feq(f1(ua[-1]), f1(ua[-2])),
                       launch_changed=launch_changed(o, pre_ya, pre_ua))
-                if pre_ua is None or not abs(pre_ua[-1]) > 1e-9:
+                if pre_ua is None or not abs(pre_ua[-1]) > 1e-9 or any(abs(v) > 1e8 for v in pre_ua if v == v):
                     break            # precondition failed (afocal): the call legitimately produced inf/NaN
             if viol and stop_at_first:
                 break
@@ -1044,6 +1047,10 @@ def solve_violation(o, svs, pks, stage):
     ya, ua = o.paraxial.marginal_ray()
     ya = [f1(v) for v in ya]
     ua = [f1(v) for v in ua]
+    if any(abs(v) > 1e8 for v in ya + ua if v == v and not math.isinf(v)):
+        # the entrance pupil has come to lie on the object plane (launch slope ~ 1e16): the marginal ray is not
+        # defined to working precision any more; nothing after this state is checked
+        return {'precondition_failed': True}
     for si, (idx, h) in enumerate(svs):
         if idx >= 1 and not abs(ua[idx - 1]) > 1e-9:
             # precondition of the solve: the ray arriving at the surface is not parallel to the axis
